@@ -729,14 +729,13 @@ def min_max_mean_std(
     one = 1.0
     ran = maximum - minimum
     m = _constrain(mean, I(minimum, maximum), "(mean)")
-    s = _constrain(
-        std,
-        _env(
-            I(0.0),
-            (abs(ran * ran / 4.0 - (maximum - mean - ran / 2.0) ** 2)) ** 0.5,
-        ),
-        " (dispersion)",
-    )
+    # largest possible standard deviation sqrt((mean-min)(max-mean)), without the cancellation of
+    # ran^2/4 - (max-mean-ran/2)^2; a std above it only by rounding (np.sqrt(var) in
+    # min_max_mean_var) is the largest possible one
+    smax = (abs((mean - minimum) * (maximum - mean))) ** 0.5
+    if smax < std <= smax * (1.0 + 4 * np.finfo(float).eps):
+        std = smax
+    s = _constrain(std, _env(I(0.0), smax), " (dispersion)")
     ml = (m.left - minimum) / ran
     sl = s.left / ran
     mr = (m.right - minimum) / ran
